@@ -17,8 +17,8 @@ def obligations(tier):
     o = []
     pf = PORTFOLIO
     n_k = 4 if tier == 'quick' else 6
-    n_g = 3 if tier == 'quick' else 5
-    to = 600 if tier == 'quick' else 2400
+    n_g = 3 if tier == 'quick' else 4      # N<=5 (thorough) did not return in 2400 s
+    to = 600 if tier == 'quick' else 1500
     o.append(Obl('KMM_f32', 'c20_stats.c', units=['statistics.c'], defines=['MODE_KMM=1'], unwind=9, timeout=to, backend=pf,
                  flags=['--slice-formula'],
                  ladder=[('N<=%d' % n_k, ['NMAX=%d' % n_k], None, None), ('N<=3', ['NMAX=3'], None, None)],
@@ -32,15 +32,15 @@ def obligations(tier):
     routes = [('ADD', False)] if tier == 'quick' else [('ADD', False), ('F32', False), ('COMBINE', False)]
     for route, tiny in routes:
         o.append(Obl('GRID_%s' % route, 'c20_stats.c', units=['statistics.c'], defines=['MODE_GRID=1', 'G_%s=1' % route], unwind=9, timeout=to, backend=PORTFOLIO,
-                     ladder=[('N<=%d' % (2 if tier == 'quick' else 3), ['NMAX=%d' % (2 if tier == 'quick' else 3)], None, None), ('N<=2', ['NMAX=2'], None, None)],
+                     ladder=[('N<=2', ['NMAX=2'], None, None)],      # N<=3 on the int8 grid did not return in 2400 s on any route
                      desc='compute_f64 vs %s: s>=0, var>=0, min<=mean<=max, min/max exact, mean/s agree within tolerance; samples = all int8 values' % route,
                      bound='N per rung; one split point; value grid int8'))
     o.append(Obl('GRID_COMBINE_tiny', 'c20_stats.c', units=['statistics.c'], defines=['MODE_GRID=1', 'G_COMBINE=1', 'TINY_GRID=1'], unwind=9, timeout=to, backend=PORTFOLIO,
-                 ladder=[('N<=%d' % n_g, ['NMAX=%d' % n_g], None, None), ('N<=2', ['NMAX=2'], None, None)],
+                 ladder=[('N<=3', ['NMAX=3'], None, None), ('N<=2', ['NMAX=2'], None, None)],
                  desc='compute_f64 vs combine of every split: s>=0, var>=0, min<=mean<=max, min/max exact, mean/s agree within tolerance; samples on the 8-value grid',
                  bound='N per rung; every split point; 8-value grid {-5,-2,-1,0,1,2,3,7}'))
     o.append(Obl('GRID_ALIAS', 'c20_stats.c', units=['statistics.c'], defines=['MODE_GRID=1', 'G_ALIAS=1', 'TINY_GRID=1'], unwind=9, timeout=to, backend=pf,
-                 ladder=[('N<=%d' % n_g, ['NMAX=%d' % n_g], None, None), ('N<=2', ['NMAX=2'], None, None)],
+                 ladder=[('N<=%d' % n_g, ['NMAX=%d' % n_g], None, None), ('N<=3', ['NMAX=3'], None, None), ('N<=2', ['NMAX=2'], None, None)],
                  desc='combine(tgt==a) and combine(tgt==b) bit-identical to combine(fresh); samples on the 8-value grid {-5,-2,-1,0,1,2,3,7}',
                  bound='N per rung; one split point; 8-value grid (a full-domain FP miter does not return)'))
     o.append(Obl('EMPTY_identity', 'c20_stats.c', units=['statistics.c'], defines=['MODE_EMPTY=1'], unwind=4, timeout=300,
